@@ -2,6 +2,7 @@ package c17
 
 import (
 	"fmt"
+	"sort"
 	"sync/atomic"
 
 	"verif/harness/core"
@@ -102,9 +103,69 @@ func execNested(c px.Context, args []sx.Sexp) core.Result {
 }
 
 func genNested(g *core.G) {
+	for _, k := range []string{"1", "2", "3"} {
+		g.Emit("@anon " + k)
+	}
 	for _, f := range []string{"obj", "hash"} {
 		for _, n := range []string{"1", "2"} {
 			g.Emit("@nested " + f + " " + n)
 		}
 	}
+}
+
+// Implementation-only op `@anon K`: ANONYMOUS object types (no name): two types made from the same definition text are
+// Equal (objectType.Equals compares the — empty — names and the members).  K ::= 1 | 2 | 3 picks the definition.
+// Laws: the instances of the two are Equal in both directions and instances of each other's type; positional = named;
+// init-hash round trip; and an Equal type is the same Hash key (`Hash{t1 => 1}.Get(t2)` finds the entry).
+// Classes: anon-rejected, anon-instances, fault — and `anon-type-key` for the known finding C17-anonymous-type-key (the key of an
+// object type is a per-allocation counter, so Equal anonymous types are different keys).
+func execAnon(c px.Context, args []sx.Sexp) core.Result {
+	defs := map[string]string{
+		"1": "Object[{attributes => {a => Integer, b => {type => Integer, value => 0}}}]",
+		"2": "Object[{attributes => {a => Optional[String]}, equality => ['a']}]",
+		"3": "Object[{parent => Object[{attributes => {a => Integer}}], attributes => {c => {type => Integer, value => 2}}}]",
+	}
+	if len(args) != 1 || args[0].IsList || defs[args[0].Atom] == "" {
+		return core.Result{Out: "bad-op", Pred: "n/a"}
+	}
+	src := defs[args[0].Atom]
+	res := core.Result{Out: "ok", Pred: "ok", NonTrivial: true, Tags: []string{"anon"}}
+	var fails []failure
+	add := func(class, format string, xs ...interface{}) { fails = append(fails, failure{class, fmt.Sprintf(format, xs...)}) }
+	px.DoWithContext(c.Fork(), func(fc px.Context) {
+		cls := safely(func() {
+			t1, t2 := fc.ParseType(src), fc.ParseType(src)
+			var arg px.Value = types.WrapInteger(1)
+			if args[0].Atom == "2" {
+				arg = types.WrapString("x")
+			}
+			o1, o2 := px.New(fc, t1, arg), px.New(fc, t2, arg)
+			o3 := px.New(fc, t1, types.WrapHash([]*types.HashEntry{types.WrapHashEntry2("a", arg)}))
+			if !t1.Equals(t2, nil) || !t2.Equals(t1, nil) {
+				add("anon-instances", "two anonymous types of one definition are not Equal")
+				return
+			}
+			if !o1.Equals(o2, nil) || !o2.Equals(o1, nil) || !px.IsInstance(t2, o1) || !px.IsInstance(t1, o2) {
+				add("anon-instances", "instances of two Equal anonymous types are not Equal / not instances of each other's type")
+			}
+			if !o1.Equals(o3, nil) || !o3.Equals(o1, nil) {
+				add("anon-instances", "positional and named construction differ on an anonymous type")
+			}
+			if o4 := px.New(fc, t1, o1.(px.PuppetObject).InitHash()); !o4.Equals(o1, nil) {
+				add("anon-instances", "init-hash round trip on an anonymous type")
+			}
+			h := types.WrapHash([]*types.HashEntry{types.WrapHashEntry(t1, types.WrapInteger(1))})
+			if _, ok := h.Get(t2); !ok || px.ToKey(t1) != px.ToKey(t2) {
+				add("anon-type-key", "two Equal anonymous object types are different Hash keys: Hash{t1 => 1}.Get(t2) misses")
+			}
+		})
+		if cls != "" {
+			add("anon-rejected", "raised %s", cls)
+		}
+	})
+	if len(fails) > 0 {
+		sort.SliceStable(fails, func(i, j int) bool { return fails[i].class != "anon-type-key" && fails[j].class == "anon-type-key" })
+		res.Pred = "FAIL " + fails[0].class + " " + fails[0].detail
+	}
+	return res
 }
